@@ -46,25 +46,39 @@ func (core *JApiCore) addMacro(d *directive.Directive) *jerr.JApiError {
 
 func (core *JApiCore) checkMacroForRecursion() *jerr.JApiError {
 	for macroName, macro := range core.macro {
-		if je := findPaste(macroName, macro); je != nil {
+		visited := map[string]struct{}{macroName: {}}
+		if je := core.findPaste(macroName, macro, visited); je != nil {
 			return je
 		}
 	}
 	return nil
 }
 
-func findPaste(macroName string, d *directive.Directive) *jerr.JApiError {
+// findPaste looks for a PASTE of the macro inside the directive, following the
+// PASTE directives of the other macros (a macro can reach itself through a chain).
+func (core *JApiCore) findPaste(macroName string, d *directive.Directive, visited map[string]struct{}) *jerr.JApiError {
 	if d.Type() == directive.Paste {
-		switch d.NamedParameter("Name") {
+		name := d.NamedParameter("Name")
+		switch name {
 		case "":
 			return d.KeywordError(fmt.Sprintf("%s (%s)", jerr.RequiredParameterNotSpecified, "Name"))
-
 		case macroName:
 			return d.KeywordError(jerr.RecursionIsProhibited)
 		}
+		if _, ok := visited[name]; ok {
+			return nil
+		}
+		visited[name] = struct{}{}
+		if macro, ok := core.macro[name]; ok {
+			for _, c := range macro.Children {
+				if je := core.findPaste(macroName, c, visited); je != nil {
+					return je
+				}
+			}
+		}
 	} else if d.Children != nil {
 		for _, c := range d.Children {
-			if je := findPaste(macroName, c); je != nil {
+			if je := core.findPaste(macroName, c, visited); je != nil {
 				return je
 			}
 		}
